@@ -69,7 +69,8 @@ def vAddLoop : VMgr → List VCfg → VMgr
 def vUpdateAll (m : VMgr) (cfgs : List VCfg) : VMgr :=
   let kept := m.cfgs.filter (fun c => vLookupLast cfgs c.name == some c)
   let run := m.running.filter (fun n => kept.any (fun c => c.name == n))
-  vAddLoop { cfgs := kept, running := run } cfgs
+  -- repaired code (fix 825e588): the add loop stores and starts `cfgsMap[name]`, the LAST entry of a name
+  vAddLoop { cfgs := kept, running := run } (cfgs.map (fun c => (vLookupLast cfgs c.name).getD c))
 
 def parseVCfg (t : String) : Option VCfg :=
   match t.splitOn ":" with
